@@ -581,11 +581,11 @@ def extract_model_operations(in_model):
       # spatial sizes (should both be 1), and the fourth shape dimensions will
       # be the number of channels
       ishape = np.array([i for i in input_shape if i is not None])
-      assert sum(ishape > 1) == 1, "Tensor shape has multiple >1 size dims"
+      assert sum(ishape > 1) <= 1, "Tensor shape has multiple >1 size dims"
       size_i = np.max(ishape)
 
       oshape = np.array([i for i in output_shape if i is not None])
-      assert sum(oshape > 1) == 1, "Tensor shape has multiple >1 size dims"
+      assert sum(oshape > 1) <= 1, "Tensor shape has multiple >1 size dims"
       size_o = np.max(oshape)
 
       number_of_operations = int(size_i * size_o)
